@@ -23,6 +23,10 @@ CommitSqliteExporter(object)
 """
 
 
+def _quote_identifier(name):
+    return '"' + name.replace('"', '""') + '"'
+
+
 class CommitSqliteExporter:
     def __init__(self, export_directory, file_name):
         """
@@ -252,7 +256,8 @@ class CommitSqliteExporter:
 
             create_table_statement = "CREATE TABLE {} ({})"
             create_table_statement = create_table_statement.format(
-                table_name, " ,".join(column_headers)
+                _quote_identifier(table_name),
+                " ,".join(_quote_identifier(header) for header in column_headers),
             )
             self._connection.execute(create_table_statement)
             self._connection.commit()
@@ -543,5 +548,5 @@ class CommitSqliteExporter:
             number_of_rows = len(entries[0]) - 1
 
             column_fields = "?" + (", ?" * number_of_rows)
-            insert_statement = f"INSERT INTO {table_name} VALUES ({column_fields})"
+            insert_statement = f"INSERT INTO {_quote_identifier(table_name)} VALUES ({column_fields})"
             connection.executemany(insert_statement, entries)
